@@ -685,10 +685,6 @@ class Flow:
             if spec is None and (args[0][0] == "fstr" or (args[0][0] == "const" and isinstance(args[0][1], str))):
                 return args[0]
             return flatten_fstr(("fstr", (("fmt", args[0], spec, -1),)))
-        # format(x, spec) with a computed spec is f"{x:{spec}}" (the spec in the form e_JoinedStr gives a nested field)
-        if isinstance(f, ast.Name) and f.id == "format" and f.id not in self.env and not kws and len(args) == 2 and args[1][0] != "star" and args[0][0] != "star":
-            s_ = flatten_fstr(("fstr", (("fmt", args[1], None, -1),)))
-            return flatten_fstr(("fstr", (("fmt", args[0], s_[1] if s_[0] == "const" else s_, -1),)))
         return ("call", self.ev(f), args, kws)
 
     @staticmethod
